@@ -5,6 +5,7 @@ import (
 	"net"
 	"sync"
 	"sync/atomic"
+	"time"
 
 	"github.com/orda-io/orda/client/pkg/model"
 	"github.com/orda-io/orda/client/pkg/orda"
@@ -34,6 +35,18 @@ type RPC struct {
 	calls    []RPCCall
 	// Drop decides whether the response of a push-pull is dropped (the client sees an RPC error).
 	Drop func(req *model.PushPullMessage) bool
+	// OnRequest sees every push-pull request before it is served (boundary ledger).
+	OnRequest func(req *model.PushPullMessage)
+	// Mangle may reorder the packs of a response (the service collects them in completion
+	// order, so any order is one the real server can produce).
+	Mangle func(resp *model.PushPullMessage)
+}
+
+// SetTaps installs the request / response taps (nil clears them).
+func (r *RPC) SetTaps(onReq func(*model.PushPullMessage), mangle func(*model.PushPullMessage)) {
+	r.mu.Lock()
+	r.OnRequest, r.Mangle = onReq, mangle
+	r.mu.Unlock()
 }
 
 // StartRPC starts the grpc front.
@@ -79,7 +92,16 @@ func (r *RPC) ProcessPushPull(ctx context.Context, in *model.PushPullMessage) (*
 	for _, p := range in.PushPullPacks {
 		n += len(p.Operations)
 	}
+	r.mu.Lock()
+	onReq, mangle := r.OnRequest, r.Mangle
+	r.mu.Unlock()
+	if onReq != nil {
+		onReq(proto.Clone(in).(*model.PushPullMessage))
+	}
 	out, err := r.b.Svc.ProcessPushPull(ctx, proto.Clone(in).(*model.PushPullMessage))
+	if err == nil && out != nil && mangle != nil {
+		mangle(out)
+	}
 	r.record(RPCCall{Method: "ProcessPushPull", CUID: in.Cuid, NOps: n, Err: err != nil})
 	return out, err
 }
@@ -115,4 +137,45 @@ func (b *Bed) NewSDKClient(r *RPC, col, alias string, st model.SyncType) orda.Cl
 	cl := orda.NewClient(&orda.ClientConfig{ServerAddr: r.Addr(), NotificationAddr: b.MQ.Addr(), CollectionName: col, SyncType: st}, alias)
 	crdt.QuietClient(cl)
 	return cl
+}
+
+// Front returns the bed's grpc front, starting it on first use (kept for the bed's lifetime).
+func (b *Bed) Front() (*RPC, error) {
+	if b.rpc != nil {
+		return b.rpc, nil
+	}
+	r, err := b.StartRPC()
+	if err != nil {
+		return nil, err
+	}
+	b.rpc = r
+	return r, nil
+}
+
+// NewSDKBedClient creates a MANUALLY-syncing SDK client that is connected through the grpc
+// front: its Sync() runs the SDK's own path (DatatypeManager.SyncAll -> SyncManager.Sync ->
+// ApplyPushPullPack by key) instead of the harness transport.
+func (b *Bed) NewSDKBedClient(col, alias string) (*Client, error) {
+	r, err := b.Front()
+	if err != nil {
+		return nil, err
+	}
+	cli := b.NewSDKClient(r, col, alias, model.SyncType_MANUALLY)
+	if err := cli.Connect(); err != nil {
+		return nil, err
+	}
+	return &Client{B: b, Col: col, Alias: alias, Cli: cli, SDK: true}, nil
+}
+
+// SyncSDK calls the SDK client's Sync() under the watchdog.
+func (c *Client) SyncSDK() CallOutcome {
+	return Guard(20*time.Second, func(ctx context.Context) error { return c.Cli.Sync() })
+}
+
+// CloseSDK closes the SDK client's connections.
+func (c *Client) CloseSDK() {
+	if c.SDK {
+		defer func() { recover() }()
+		c.Cli.Close()
+	}
 }
